@@ -569,12 +569,17 @@ impl<'a> G<'a> {
         let k = if self.r.chance(1, 3) { "readh" } else { "read" };
         let c = *self.r.pick(&[8u8, 15, 7]);
         self.line(&format!("user {id} {addr} {k} {c}"));
-        let n = self.r.range(1, 4);
+        // mostly 1..4 fragments; sometimes a series long enough for the 4-bit sequence number to come back to the
+        // request's (17 fragments and more: the 17th is not a first fragment, S117)
+        let n = if self.r.chance(1, 15) { *self.r.pick(&[16u64, 17, 18, 33]) } else { self.r.range(1, 4) };
         for f in 0..n {
             let last = f + 1 == n;
             let obj = hex(&measurement_objects(&mut self.r));
             let mut kv = format!("reply seq={f} fir={} fin={} con={} obj={obj}", (f == 0) as u8, last as u8, (!last || self.r.chance(1, 3)) as u8);
-            if self.r.chance(1, 6) {
+            if n > 4 && f == 16 && self.r.chance(1, 3) {
+                // FIR on the fragment whose sequence number equals the request's again
+                kv = format!("reply seq={f} fir=1 fin={} con=1 obj={obj}", last as u8);
+            } else if self.r.chance(1, if n > 4 { 6 * n } else { 6 }) {
                 // one rule of the series broken
                 kv = match self.r.below(6) {
                     0 => format!("reply seq={} fir={} fin={} con=1 obj={obj}", f + 1, (f == 0) as u8, last as u8),
